@@ -70,6 +70,22 @@ class Work:
         shutil.rmtree(self.dir, ignore_errors=True)
 
 
+SHIM_SRC = os.path.join(VERIF, "hooks", "shim", "zz_verif_shim.go")
+
+
+def build_driver_with_shim(work, tags=None, name="edrv"):
+    """try to build the driver with the in-package shim (tag verifshim, overlay-added file); returns (path, has_shim).
+    A shim that no longer compiles against the tree is dropped (recorded by the caller), never an error."""
+    ov = os.path.join(work.dir, "shim-overlay.json")
+    with open(ov, "w") as f:
+        json.dump({"Replace": {os.path.join(os.path.abspath(repo()), "zz_verif_shim.go"): SHIM_SRC}}, f)
+    t = "verifshim" + ("," + tags if tags else "")
+    try:
+        return build_driver(work, tags=t, name=name + "_shim", extra=["-overlay", ov]), True
+    except Infra:
+        return build_driver(work, tags=tags, name=name), False
+
+
 def build_driver(work, tags=None, name="edrv", extra=None):
     out = os.path.join(work.dir, name)
     cmd = [os.path.join(VERIF, "bin", "build_driver"), repo(), out]
